@@ -342,7 +342,29 @@ fn main() {
             per: args.num("per", 2),
             sched: None,
         };
-        let (events, _, _) = run_scheduled(&sc, &mut rng, true);
+        let (mut events, stop, _) = run_scheduled(&sc, &mut rng, true);
+        if matches!(stop, Stop::Done) {
+            // afterwards, on a fresh unscheduled thread: one ordinary emission, and one from a thread-local destructor that
+            // runs while the thread exits (the guard is installed before the thread's first metrics call, so it is destroyed
+            // after whatever that call put into thread-local storage): both are "later emissions on a thread without a local
+            // recorder" and must reach the installed recorder
+            let winner = events.iter().find(|e| e["ev"] == "set.done.post" && e["a"][1] == 1).and_then(|e| e["a"][0].as_u64()).unwrap_or(0) as usize;
+            let before = if winner > 0 { DISPATCH[winner].load(Ordering::SeqCst) } else { 0 };
+            struct ExitEmit;
+            impl Drop for ExitEmit {
+                fn drop(&mut self) {
+                    let _ = std::panic::catch_unwind(|| metrics::counter!("c").increment(1));
+                }
+            }
+            thread_local! { static EXIT: std::cell::RefCell<Option<ExitEmit>> = std::cell::RefCell::new(None); }
+            let _ = std::thread::spawn(|| {
+                EXIT.with(|e| *e.borrow_mut() = Some(ExitEmit));
+                metrics::counter!("c").increment(1);
+            })
+            .join();
+            let after = if winner > 0 { DISPATCH[winner].load(Ordering::SeqCst) } else { 0 };
+            events.push(json!({"p": 0, "ev": "tls.exit", "a": [winner, after - before]}));
+        }
         for e in events {
             println!("{}", e);
         }
